@@ -330,7 +330,7 @@ def one_case(ctx, exe, inp, users, cfg, db=DB):
 
 
 def run_selout_traces(ctx, per_property="C05"):
-    exe = ctx.build_harness("ph_trace")
+    exe = build_trace_harness(ctx)
     n = ctx.n(40, 1000)
     evals = 0
     distinct = set()
@@ -424,12 +424,21 @@ def handle_result(ctx, inp, cfg, res, mixed):
             # narrow rule: the punch file was re-opened after text had been punched for n (events) AND the input text
             # re-reads a SELECTED_OUTPUT n block in a later simulation of this call
             ctx.finding("selected-output-redefined-within-call", text, dict(rep, oracle=res["oracle"][:5]))
+        elif key == "sel-heading-columns" and not endrow_checks_user_punch() and n_user in user_punch_false_numbers(inp):
+            ctx.finding("user-punch-false-columns-in-table", text, dict(rep, oracle=res["oracle"][:5]))
         elif key.startswith("sel-") and mixed:
             ctx.finding("get_sel_out_string_on-ignores-n", text, dict(rep, oracle=res["oracle"][:5]))
         else:
             ctx.violation("model and code agree but the property's relation fails: " + text,
                           dict(rep, oracle=res["oracle"][:5]))
             return
+
+
+def user_punch_false_numbers(inp):
+    """numbers that the input text gives a USER_PUNCH program and -user_punch false"""
+    ts = TextState()
+    ts.read_call(inp)
+    return {n for n in ts.up if not ts.user_punch_on.get(n, True)}
 
 
 def late_blocks(inp):
@@ -470,7 +479,7 @@ def cfg_from_json(j):
 
 
 def replay(ctx, data):
-    exe = ctx.build_harness("ph_trace")
+    exe = build_trace_harness(ctx)
     cfg = cfg_from_json(data["cfg"])
     prelude = [f"write {hx(k)} {hx(v)}" for k, v in data.get("files", {}).items()]
     res = run_calls(ctx, exe, [(cfg, data["input"])], prelude=prelude)[0]
@@ -616,6 +625,20 @@ class TextState:
             out.append(dict(first=first, pr_punch=self.pr_punch, pr_dump=self.pr_dump, tidy=tidy, blocks=blocks, dump=dump))
         ambiguous = {n for n, v in hp_seen.items() if len(v) > 1} | {n for n, c in up_seen.items() if c > 1} | late_def
         return dict(sims=out, late_redef=late_redef, ambiguous=ambiguous, inverse=any(b[0] == "INVERSE_MODELING" for s in sims for b in s))
+
+
+def endrow_checks_user_punch():
+    """shape of IPhreeqc::EndRow: are the unpunched USER_PUNCH headings padded only when the block has -user_punch true?"""
+    src = (vlib.REPO / "src" / "IPhreeqc.cpp").read_text()
+    a = src.find("int IPhreeqc::EndRow(void)")
+    b = src.find("\nvoid IPhreeqc::check_database", a)
+    if a < 0 or b < a:
+        raise RuntimeError("IPhreeqc::EndRow not recognised")
+    return "Get_user_punch()" in _re.sub(r"//[^\n]*", "", src[a:b])
+
+
+def build_trace_harness(ctx):
+    return ctx.build_harness("ph_trace", extra=(["-DB05_ENDROW_CHECKS_USER_PUNCH"] if endrow_checks_user_punch() else []))
 
 
 def loop_is_hoisted():
@@ -1089,6 +1112,8 @@ def run_history(ctx, exe, inputs, cfgs, cells_cap=None, names=None, db=DB, noloa
                 if hp is not None and n in snaps[k][1][0] and n not in info["ambiguous"] and int(hp) != int(snaps[k][1][0][n]):
                     r["rel"].append(("hp", f"sel {n}: engine high_precision {hp}, input texts say {int(snaps[k][1][0][n])}"))
             r["oracle"] += columns_oracle(events, views, skip=set(info["late_redef"]) | set(info["ambiguous"]))
+            # numbers with a USER_PUNCH program and -user_punch false (input texts)
+            r["upf"] = sorted(n for n in snaps[k][1][2] if not snaps[k][1][1].get(n, True)) if not endrow_checks_user_punch() else []
             r["columns_judged"] = True
             isk = skeleton_of_events(events)
             r["sk_impl"], r["sk_model"] = isk, skout[k]
@@ -1199,7 +1224,12 @@ def handle_history_result(ctx, inputs, cfgs, k, r, hoisted, noload=False):
         if key in ("sel-string-rows", "sel-file-rows", "sel-file-ne-string") and n_user in r["redefined"]:
             # narrow rule: a SELECTED_OUTPUT n block that the INPUT TEXT of this call re-reads in a later simulation
             ctx.finding("selected-output-redefined-within-call", text, dict(rep, oracle=r["oracle"][:5]))
-        elif key in ("out-lines", "log-lines") and r.get("kind") in ("nodb", "loadfail") and not REFRESHED:
+        elif key == "sel-heading-columns" and n_user in r.get("upf", []):
+            # narrow rule: the block says -user_punch false and a USER_PUNCH of its number exists (input texts): IPhreeqc::EndRow
+            # still pads the table with one empty column per USER_PUNCH heading; heading line and rows do not have them
+            ctx.finding("user-punch-false-columns-in-table", text, dict(rep, oracle=r["oracle"][:5]))
+        elif (key in ("out-lines", "log-lines", "out-disabled-lines", "log-disabled-lines") and r.get("kind") in ("nodb", "loadfail")
+              and not REFRESHED):
             # narrow rule: a Run* call stopped by "No database is loaded" or a failed LoadDatabase(String): do_run, which
             # splits the output/log strings into the line vectors, is never reached
             ctx.finding("lines-not-split-without-do-run", text, dict(rep, oracle=r["oracle"][:5], step=r.get("kind")))
@@ -1350,8 +1380,42 @@ def run_histories(ctx, exe, n, with_cells=True):
     return {"evaluations": hist["calls"], "distinct": len(distinct)}
 
 
+def run_nodb_matrix(ctx, exe, ncomb):
+    """every combination of the six output/log/error string and file switches (all 64, or a sample) on an instance that has
+    no database: never loaded, after a failed LoadDatabase of a missing file, after a failed LoadDatabaseString, and once more
+    after a successful call (files of the earlier call on disk)"""
+    import itertools
+    combos = list(itertools.product([False, True], repeat=6))
+    if ncomb < len(combos):
+        combos = ctx.rng.sample(combos, ncomb)
+    n = 0
+    inp = gi.solution(ctx.rng, 1) + "END\n"
+    for c in combos:
+        cfg = {"out": (c[0], c[1]), "log": (c[2], c[3]), "err": (c[4], c[5]), "dump": (False, False), "strsw": {1: False},
+               "filesw": {1: False}, "cur": 1, "users": []}
+        allon = dict(cfg, out=(True, True), log=(True, True), err=(True, True))
+        variant = ctx.rng.choice([0, 1, 2])
+        if variant == 0:
+            inputs, cfgs, noload = [inp, "@LOAD_OK", inp, "@LOAD_MISSING", inp], [cfg, cfg, allon, cfg, cfg], True
+        elif variant == 1:
+            inputs, cfgs, noload = [inp, "@LOADSTR_BAD", inp, inp], [allon, cfg, cfg, allon], False
+        else:
+            inputs, cfgs, noload = ["@LOAD_MISSING", inp, "@LOADSTR_BAD", inp], [cfg, cfg, allon, cfg], True
+        res = run_history(ctx, exe, inputs, cfgs, noload=noload)
+        if "crash" in res:
+            ctx.violation("harness run crashed / gave no result", {"history": inputs, "cfgs": [cfg_json(x) for x in cfgs], "result": res, "kind": "history", "noload": noload})
+            break
+        for k, r in enumerate(res["calls"]):
+            n += 1
+            handle_history_result(ctx, inputs, cfgs, k, r, res["hoisted"], noload)
+        if ctx.violations:
+            break
+    ctx.cov["nodb_matrix"] = {"switch_combinations": len(combos), "steps": n}
+    return n
+
+
 def replay_history(ctx, data):
-    exe = ctx.build_harness("ph_trace")
+    exe = build_trace_harness(ctx)
     inputs = data["history"]
     cfgs = [cfg_from_json(c) for c in data["cfgs"]]
     res = run_history(ctx, exe, inputs, cfgs, cells_cap=data.get("cap"), noload=data.get("noload", False))
